@@ -58,6 +58,16 @@ class UndefVersion(MarkerMixin):
     the metaclass then can check for its presence.
     """
 
+    def __init_subclass__(cls, **kwargs):
+        # also refuse subclassing for plugin groups whose plugin classes
+        # do not use the PluginMetaclassMixin (which does the same check)
+        super().__init_subclass__(**kwargs)
+        for b in cls.__bases__:
+            if UndefVersion._is_marked(b):
+                ref = UndefVersion._unwrap(b)
+                msg = f"{cls.__name__}: Cannot inherit from {ref} of unspecified version!"
+                raise TypeError(msg)
+
     @classmethod
     def _mark_class(cls, c):
         # NOTE: we also want to mark nested non-plugins to prevent subclassing
